@@ -436,7 +436,7 @@ theorem c07_gate (c : Ctl) (a : String) (rwc woc : Option (List String)) (ckp : 
     (rev : Option Nat) (o1 o2 : Bool) (ck : CkEnv)
     (hwo : c.replicas.find? (fun r => r.1 = a) = some (a, .wo))
     (hok : (c.stepVerify a rwc woc ckp rev o1 o2 ck).2 = .ok) :
-    ∃ r w k n, rwc = some r ∧ woc = some w ∧ ckp = some k ∧ rev = some n ∧ chainsAgree r w k = some true ∧
+    ∃ r w k n, rwc = some r ∧ woc = some w ∧ ckp = some k ∧ rev = some n ∧ chainsAgree r w k = true ∧
       o1 = true ∧ o2 = true := by
   unfold stepVerify at hok
   rw [hwo] at hok
@@ -461,12 +461,10 @@ theorem c07_gate (c : Ctl) (a : String) (rwc woc : Option (List String)) (ckp : 
           split at hok
           · cases hok
           · cases hca : chainsAgree r w k with
-            | none => rw [hca] at hok; cases hok
-            | some b =>
+            | false => rw [hca] at hok; cases hok
+            | true =>
               rw [hca] at hok
-              cases b with
-              | false => cases hok
-              | true =>
+              (
                 simp only at hok
                 cases rev with
                 | none => cases hok
@@ -477,7 +475,7 @@ theorem c07_gate (c : Ctl) (a : String) (rwc woc : Option (List String)) (ckp : 
                   | true =>
                     cases o2 with
                     | false => simp at hok
-                    | true => exact ⟨r, w, k, n, rfl, rfl, rfl, rfl, hca, rfl, rfl⟩
+                    | true => exact ⟨r, w, k, n, rfl, rfl, rfl, rfl, hca, rfl, rfl⟩)
 
 /-- **C07 (at most one rebuilding).** Part of `c18_consistent`; stated again for reachable states. -/
 theorem c07_single_wo (rf : Nat) (h : 1 ≤ rf) (ops : List CtlOp) :
